@@ -36,6 +36,17 @@ var Env = map[string]string{
 	"VD": "/srv/www",
 }
 
+// HostileEnv holds values that contain placeholder syntax themselves: a
+// self-reference, a mutual reference in the other style, a reference to an
+// ordinary variable, and an unterminated opener.
+var HostileEnv = map[string]string{
+	"VE": "{$VE}",
+	"VF": "x{%VG%}",
+	"VG": "{%VF%}y",
+	"VH": "pre{$VA}post",
+	"VI": "{$",
+}
+
 func expandEnv(s string) string {
 	for k, v := range Env {
 		s = strings.ReplaceAll(s, "{$"+k+"}", v)
